@@ -7,6 +7,7 @@ set -u
 prop="$1"; mk="$2"; shift 2
 wt="/tmp/wt-$prop"; src="${SEEDOUT:-/tmp/seed-out}/$prop/$mk"
 [ -f "$src/patch.diff" ] || { echo "no patch at $src"; exit 3; }
+[ -d "$wt" ] || git -C /repo worktree add -q --detach "$wt" HEAD      # scratch worktree outside /repo and /verif; remove when done
 git -C "$wt" checkout -q -- . && git -C "$wt" clean -fdq
 # seeds are judged on top of the current /repo HEAD (which carries the fix: commits)
 git -C "$wt" checkout -q --detach "$(git -C /repo rev-parse HEAD)"
